@@ -1,6 +1,7 @@
 import Modbus.Driver.JudgePacket
 import Modbus.Driver.Regs
 import Modbus.Driver.Split
+import Modbus.Driver.Extract
 import Std.Data.HashSet
 import Std.Data.HashMap
 /-
@@ -35,7 +36,10 @@ def dispatch (prop : String) (ts : List String) : Option Family :=
     | none =>
       match parseSplitOp ts with
       | some op => some { modelOut := op.modelOut, kf := none, expect := op.judge prop, kind := "split" }
-      | none => none
+      | none =>
+        match parseExtractOp ts with
+        | some op => some { modelOut := op.modelOut, kf := none, expect := op.judge prop, kind := "extract" }
+        | none => none
 
 structure St where
   lines : Nat := 0
